@@ -911,3 +911,15 @@ func (h *BlockItemResponseHeader) UnmarshalJSON(b []byte) error {
 
 	return nil
 }
+
+func (h HandoverMessageHeader) MarshalJSON() ([]byte, error) {
+	return util.MarshalJSON(h.BaseHeader.JSONMarshaler())
+}
+
+func (h *HandoverMessageHeader) UnmarshalJSON(b []byte) error {
+	if err := util.UnmarshalJSON(b, &h.BaseHeader); err != nil {
+		return errors.WithMessage(err, "unmarshal HandoverMessageHeader")
+	}
+
+	return nil
+}
